@@ -119,16 +119,15 @@ Section Displacements.
   Qed.
   (* poloidal part of g_22 = e_y . e_y = hy^2 (|yhat| = 1): Proof_Metric.g_22_poloidal_part *)
 
-  (* g_12 versus e_x . e_y *)
-  Lemma g_12_code_closed : G metric_nonorth_g_12 = - hy * (dR * pZ - dZ * pR) / (dxlin * (Rx * Rabs Bp)).
+  (* g_12 = e_x . e_y, both signs of bpsign (was wrong for bpsign = +1 in the pinned code: finding F12, repaired) *)
+  Lemma g_12_code_closed : G metric_nonorth_g_12 = hy * (dR * pZ - dZ * pR) / (dxlin * (Rx * Bp)).
   Proof.
     pose proof tanB_closed as T. pose proof Rx_ne as HRx. unfold_metric. revert T. generalize tanB. intros t T.
-    assert (Rabs Bp <> 0) by (apply Rabs_no_R0; assumption).
     field_simplify_eq; [cbv beta iota delta [Rpow_def.pow]; nsatz | auto].
   Qed.
-  Lemma g_12_displacement_bps_neg : bps = -1 -> G metric_nonorth_g_12 = ex_ey.
-  Proof. intro E. rewrite g_12_code_closed. unfold ex_ey. rewrite E. pose proof Rx_ne. assert (Rabs Bp <> 0) by (apply Rabs_no_R0; assumption). field; auto. Qed.
-  Lemma g_12_displacement_bps_pos : bps = 1 -> G metric_nonorth_g_12 = - ex_ey.
-  Proof. intro E. rewrite g_12_code_closed. unfold ex_ey. rewrite E. pose proof Rx_ne. assert (Rabs Bp <> 0) by (apply Rabs_no_R0; assumption). field; auto. Qed.
-  Definition g_12_displacement_statement : Prop := G metric_nonorth_g_12 = ex_ey.
+  Lemma g_12_displacement : G metric_nonorth_g_12 = ex_ey.
+  Proof.
+    rewrite g_12_code_closed. unfold ex_ey. rewrite Habs. pose proof Rx_ne. pose proof (sq1_ne0 _ Hbps).
+    field_simplify_eq; [cbv beta iota delta [Rpow_def.pow]; nsatz | auto].
+  Qed.
 End Displacements.
